@@ -514,6 +514,11 @@ def _method(base, attr, args, sc, node):
             return boolv(z3.PrefixOf(args[0].v, base.v))
         if attr == "endswith":
             return boolv(z3.SuffixOf(args[0].v, base.v))
+        if attr == "lower" and not args:
+            from .calls import StrLower
+
+            ops.USED.add("strlower")
+            return Val(STR, StrLower(base.v))
     raise Unsupported(f"spec: method .{attr} on {t}")
 
 
